@@ -182,7 +182,7 @@ class BipartiteGraph:
         self.W = W
         self.E = 0
         if (edges is None) & (weights is None):
-            self.edges = np.array([], np.int_)
+            self.edges = np.zeros((0, 2), np.int_)
             self.weights = np.array([])
         else:
             if edges.shape[0] == np.size(weights):
